@@ -94,7 +94,10 @@ static uint64_t table_block(const HNode& n) {
 std::vector<uint64_t> Hist::owned_ids(const HNode& n, const char* props) {
   std::vector<const void*> ptrs; impl_owned_blocks(n.impl, ptrs);
   std::vector<uint64_t> ids;
-  for (const void* p : ptrs) { uint64_t id = block_id_of(p); if (id == NOBLOCK) fail(props, "item-storage-not-an-allocator-block", fmt("node #%d (%s) uses storage that is not a live block of the installed allocator", n.id, mv_str(to_value(n.id), 60).c_str())); else ids.push_back(id); }
+  for (const void* p : ptrs) {
+    uint64_t id = block_id_of(p);
+    if (id == NOBLOCK) { const BlockInfo* in = sa_find_containing(p); if (in && !ids.empty() && in->id == ids[0]) continue; }   // storage carved out of the item's own block (combined allocation) is fine
+    if (id == NOBLOCK) fail(props, "item-storage-not-an-allocator-block", fmt("node #%d (%s) uses storage that is not a live block of the installed allocator", n.id, mv_str(to_value(n.id), 60).c_str())); else ids.push_back(id); }
   return ids;
 }
 
